@@ -41,25 +41,58 @@ def _taken_atomically(store, attr):
     return False
 
 
+def _cycle_unit(m):
+    """cycle() and the private methods of the state machine it is split into (transitively; _cleanup and _new_state are
+    units with rules of their own)"""
+    ci = m.cls(SM)
+    seen, todo = [], [_m(m, 'cycle')]
+    while todo:
+        f = todo.pop()
+        if f in seen:
+            continue
+        seen.append(f)
+        for c in calls_in(f.node):
+            if isinstance(c.func, ast.Attribute) and dotted(c.func.value) == 'self' and c.func.attr in ci.methods and \
+                    c.func.attr not in ('_cleanup', '_new_state', 'cycle', 'start', 'stop'):
+                h = ci.methods[c.func.attr]
+                # only helpers that take part in stepping the machine (they call the state function, _cleanup, _new_state or
+                # another such helper) - not bookkeeping like _update_attributes
+                if any(src(x.func) == 'self.statefunc' or call_attr(x) in ('_cleanup', '_new_state') or
+                       (isinstance(x.func, ast.Attribute) and dotted(x.func.value) == 'self' and x.func.attr.startswith('_') and x.func.attr in ci.methods
+                        and x.func.attr not in ('_update_attributes',)) for x in calls_in(h.node)):
+                    todo.append(h)
+    return seen
+
+
+def _owner(m, pred):
+    """[(function of the cycle unit, call)] for the calls accepted by pred"""
+    return [(f, c) for f in _cycle_unit(m) for c in calls_in(f.node) if pred(c)]
+
+
 @rule('C14.R1', min_instances=3)
 def bounded_cycle(ctx):
     """no while, bounded for loops, no recursion in cycle"""
     m = ctx.m
     f = _m(m, 'cycle')
-    ctx.analysed(f)
-    whiles = [n for n in body_walk(f.node) if isinstance(n, ast.While)]
-    ctx.check(not whiles, f'{f.qualname}:no while loop', whiles[0] if whiles else f.node, 'cycle has no while loop',
-              'cycle contains a while loop: a chain of state functions that never returns Retry does not terminate', f)
-    fors = [n for n in body_walk(f.node) if isinstance(n, (ast.For, ast.AsyncFor))]
-    if not fors:
+    unit = _cycle_unit(m)
+    nfor = 0
+    for g in unit:
+        ctx.analysed(g)
+        whiles = [n for n in body_walk(g.node) if isinstance(n, ast.While)]
+        ctx.check(not whiles, f'{g.qualname}:no while loop', whiles[0] if whiles else g.node, 'no while loop',
+                  f'{g.name} contains a while loop: a chain of state functions that never returns Retry does not terminate', g)
+        fors = [n for n in body_walk(g.node) if isinstance(n, (ast.For, ast.AsyncFor))]
+        nfor += len(fors)
+        for n in fors:
+            it = n.iter
+            ok = isinstance(it, ast.Call) and dotted(it.func) == 'range' and len(it.args) == 1 and \
+                (isinstance(it.args[0], ast.Constant) and isinstance(it.args[0].value, int) or src(it.args[0]) == 'self.maxloops')
+            ctx.check(ok, f'{g.qualname}:bounded loop over `{src(it)}`'.replace(src(it), 'range(...)') + f' #{fors.index(n)}', n,
+                      f'iterates {src(it)}', f'loop over `{src(it)}` is not bounded by a constant or self.maxloops', g)
+    if not nfor:
         raise AnchorMissing('no for loop in StateMachine.cycle')
-    for n in fors:
-        it = n.iter
-        ok = isinstance(it, ast.Call) and dotted(it.func) == 'range' and len(it.args) == 1 and \
-            (isinstance(it.args[0], ast.Constant) and isinstance(it.args[0].value, int) or src(it.args[0]) == 'self.maxloops')
-        ctx.check(ok, f'{f.qualname}:bounded loop over `{src(it)}`'.replace(src(it), 'range(...)') + f' #{fors.index(n)}', n,
-                  f'iterates {src(it)}', f'loop over `{src(it)}` is not bounded by a constant or self.maxloops', f)
-    rec = [c for c in calls_in(f.node) if call_attr(c) == 'cycle']
+    names = {g.name for g in unit}
+    rec = [c for g in unit for c in calls_in(g.node) if call_attr(c) == 'cycle' or (g is not f and call_attr(c) == g.name)]
     ctx.check(not rec, f'{f.qualname}:not recursive', f.node, 'cycle does not call cycle', 'cycle calls itself', f)
     init = _m(m, '__init__')
     st = [v for t, v, s in attr_stores(init.node) if t.attr == 'maxloops']
@@ -100,12 +133,12 @@ def _result_names(f):
 def never_raises(ctx):
     """state function and cleanup calls are contained; non-callable results go to _cleanup"""
     m = ctx.m
-    f = _m(m, 'cycle')
-    ctx.analysed(f)
-    sf = [c for c in calls_in(f.node) if src(c.func) == 'self.statefunc']
-    if not sf:
+    sfo = _owner(m, lambda c: src(c.func) == 'self.statefunc')
+    if not sfo:
         raise AnchorMissing('self.statefunc(self) call not found in cycle')
-    for c in sf:
+    f = sfo[0][0]
+    ctx.analysed(f)
+    for f, c in sfo:
         t, h = contained_by_catch_all(c)
         ok = t is not None and not handler_reraises(h)
         ctx.check(ok, f'{f.qualname}:state function call contained', c, 'inside try/except Exception without re-raise',
@@ -179,12 +212,11 @@ def cleanup_taken_once(ctx):
     ok = bool(rs) and all(any(isinstance(a, ast.If) and 'cleanup_reason is None' in src(a.test) for a in ancestors(s)) for t, v, s in rs)
     ctx.check(ok, f'{g.qualname}:first reason is kept', g.node, 'cleanup_reason stored only when None',
               'cleanup_reason is overwritten while a cleanup is in progress', g)
-    f = _m(m, 'cycle')
-    ctx.analysed(f)
-    intr = [c for c in calls_in(f.node) if call_attr(c) == '_cleanup' and c.args and src(c.args[0]) == 'self.next_task']
-    if not intr:
+    intro = _owner(m, lambda c: call_attr(c) == '_cleanup' and c.args and src(c.args[0]) == 'self.next_task')
+    if not intro:
         raise AnchorMissing('interrupting _cleanup(self.next_task) not found in cycle')
-    for c in intr:
+    for f, c in intro:
+        ctx.analysed(f)
         # the interrupting clean-up lies only where the tests established: a task is pending AND no clean-up is running
         fcfg = CFG(f.node, m, f.module)
         pending = sides_with_fact(fcfg, lambda a, tv: tv and src(a) == 'self.next_task')
@@ -220,14 +252,16 @@ def init_flag(ctx):
                 lst = next((l for l in (getattr(par, 'body', []), getattr(par, 'orelse', []), getattr(par, 'finalbody', [])) if s in l), [])
                 i = lst.index(s) if s in lst else -1
                 prev = lst[i - 1] if i > 0 else None
-                ok = fi.name == 'cycle' and prev is not None and any(src(c.func) == 'self.statefunc' for c in calls_in(prev))
+                unit = _cycle_unit(m)
+                in_unit = fi in unit or any(fi.qualname in m.inlined.get(g.qualname, ()) for g in unit)
+                ok = in_unit and prev is not None and any(src(c.func) == 'self.statefunc' for c in calls_in(prev))
                 ctx.check(ok, f'{fi.qualname}:init cleared', s, 'cleared directly after the state function returned',
                           'init is not cleared directly after the normal return of the state function: the second call of a '
                           'state still sees init (or the first one does not)', fi)
             else:
                 ctx.undecided(f'{fi.qualname}:init stored', s, f'value `{src(v) if v is not None else None}`', fi)
     cyc = _m(m, 'cycle')
-    cleared = [s for t, v, s in attr_stores(cyc.node) if t.attr == 'init' and isinstance(v, ast.Constant) and v.value is False]
+    cleared = [s for g in _cycle_unit(m) for t, v, s in attr_stores(g.node) if t.attr == 'init' and isinstance(v, ast.Constant) and v.value is False]
     ctx.check(bool(cleared), f'{cyc.qualname}:init cleared after the first call', cyc.node, 'self.init = False exists in cycle',
               'cycle never clears the init flag: every call of a state sees init=True', cyc)
     ns = _m(m, '_new_state')
@@ -352,16 +386,61 @@ def each_run_starts_clean(ctx):
     ctx.check(bool(upd) and bool(enter), f'{f.qualname}:requested state entered with its attributes', f.node, '_new_state(action.newstate); _update_attributes(action.kwds)',
               'the posted Start is not carried out completely (state entered / keywords applied)', f)
     loops = [n for n in body_walk(f.node) if isinstance(n, ast.For)]
-    rv = _result_names(f)
-    inner_enter = [c for c in calls_in(f.node) if call_attr(c) == '_new_state' and c.args and src(c.args[0]) in rv]
-    ctx.check(bool(inner_enter), f'{f.qualname}:returned state is entered', f.node, '_new_state(ret)', 'the state returned by a state function is never entered', f)
-    for t in cfg.nodes:
-        if t.kind == 'test' and src(t.ast).replace('not ', '') in rv:
-            neg = src(t.ast).startswith('not ')
-            ids = {i for c in inner_enter for i in cfg.node_of(c) if any(a is getattr(t.ast, 'cfg_owner', None) for a in ancestors(c))}
-            if ids:
-                ctx.check(ids <= cfg.reach([t.id], labels={'F' if neg else 'T'}, avoid=[t.id]), f'{f.qualname}:clean-up result entered when there is one', t.ast,
-                          '_new_state(ret) on the side where ret is set', f'`{src(t.ast)}`: _new_state(None) is called and a returned clean-up state is ignored', f)
+    # in cycle itself or in the stepping helpers it is split into: the local holding the next state (result of the state
+    # function, of _cleanup, or of a stepping helper) is what _new_state is called with
+    found = False
+    for g in _cycle_unit(m):
+        gcfg = CFG(g.node, m, g.module)
+        rv = _result_names(g) | {t.id for n in body_walk(g.node) if isinstance(n, ast.Assign) and isinstance(n.value, ast.Call)
+                                 and isinstance(n.value.func, ast.Attribute) and dotted(n.value.func.value) == 'self'
+                                 and any(h.name == n.value.func.attr for h in _cycle_unit(m)) for t in n.targets if isinstance(t, ast.Name)}
+        inner_enter = [c for c in calls_in(g.node) if call_attr(c) == '_new_state' and c.args and src(c.args[0]) in rv]
+        found = found or bool(inner_enter)
+        for t in gcfg.nodes:
+            if t.kind == 'test' and src(t.ast).replace('not ', '') in rv:
+                neg = src(t.ast).startswith('not ')
+                ids = {i for c in inner_enter for i in gcfg.node_of(c) if any(a is getattr(t.ast, 'cfg_owner', None) for a in ancestors(c))}
+                if ids:
+                    ctx.analysed(g)
+                    ctx.check(ids <= gcfg.reach([t.id], labels={'F' if neg else 'T'}, avoid=[t.id]), f'{g.qualname}:clean-up result entered when there is one', t.ast,
+                              '_new_state(ret) on the side where ret is set', f'`{src(t.ast)}`: _new_state(None) is called and a returned clean-up state is ignored', g)
+    ctx.check(found, f'{f.qualname}:returned state is entered', f.node, '_new_state(ret)', 'the state returned by a state function is never entered', f)
+    # the clean-up after "too many states chained" may return a follow-up state: once entered it is KEPT - the machine goes on
+    # with it in the next round instead of falling through to `_new_state(None)` (which would drop the rest of the clean-up)
+    unit = _cycle_unit(m)
+    stepping = {h.name for h in unit}
+    for g in unit:
+        over = [n for n in body_walk(g.node) if isinstance(n, ast.Assign) and isinstance(n.value, ast.Call) and call_attr(n.value) == '_cleanup'
+                and 'too many' in src(n.value) and isinstance(n.targets[0], ast.Name)]
+        for a in over:
+            gcfg = CFG(g.node, m, g.module)
+            rvn = a.targets[0].id
+            enters = [i for c in calls_in(g.node) if call_attr(c) == '_new_state' and c.args and src(c.args[0]) == rvn and
+                      gcfg.reachable(gcfg.ids(a)[0], (gcfg.node_of(c) or [0])[0], exc=False) for i in gcfg.node_of(c)
+                      if any(isinstance(x, ast.If) and rvn in src(x.test) for x in ancestors(c))]
+            if not enters:
+                continue
+            ctx.analysed(g)
+            drops = [i for c in calls_in(g.node) if call_attr(c) == '_new_state' and c.args and isinstance(c.args[0], ast.Constant) and c.args[0].value is None
+                     for i in gcfg.node_of(c)]
+            steps = [i for c in calls_in(g.node) if src(c.func) == 'self.statefunc' or call_attr(c) == '_cleanup' or
+                     (isinstance(c.func, ast.Attribute) and dotted(c.func.value) == 'self' and c.func.attr in stepping) for i in gcfg.node_of(c)]
+            ok = gcfg.all_paths_pass(enters, drops, steps, exc=False) if drops else True
+            # split into a helper: the two outcomes are told apart by what the helper returns
+            tests = [t for t in gcfg.nodes if t.kind == 'test' and src(t.ast).replace('not ', '') == rvn and gcfg.reachable(gcfg.ids(a)[0], t.id, exc=False)]
+            for t in tests:
+                neg = src(t.ast).startswith('not ')
+
+                def consts(label):
+                    r = gcfg.reach([t.id], labels={label}, avoid=[t.id] + steps, exc=False)     # straight to a return, no further step
+                    return {src(gcfg.nodes[i].ast.value) if gcfg.nodes[i].ast.value is not None else 'None'
+                            for i in r if isinstance(gcfg.nodes[i].ast, ast.Return)}
+                yes, no = consts('F' if neg else 'T'), consts('T' if neg else 'F')
+                if yes and no and (yes & no):
+                    ok = False
+            ctx.check(ok, f'{g.qualname}:the follow-up state of the overflow clean-up is kept', a, 'entered and continued with (not followed by _new_state(None))',
+                      f'after `{src(a)[:60]}...` returned a follow-up state and it was entered, the same round goes on as if there were none (same return value / '
+                      'falls through to `_new_state(None)`): the second step of the clean-up never runs and the machine goes inactive in the middle of it', g)
     s = _m(m, 'start')
     ctx.analysed(s)
     cfgs = CFG(s.node, m, s.module)
